@@ -30,47 +30,74 @@ type loaded struct {
 	gover string
 }
 
+// skippedOverlay: harness files (virtual path -> first compile error) that do not type-check against the current
+// tree — e.g. after a refactoring renamed an unexported identifier they use. They are left out of every overlay of
+// this run; their harnesses are reported as SKIPPED (see cmdCheck), the others still run.
+var skippedOverlay = map[string]string{}
+
+func isHarnessFile(virt string) bool {
+	return strings.HasPrefix(filepath.Base(virt), "zz_verif_") && !strings.HasSuffix(virt, "_test.go")
+}
+
 func loadProgram(pkgDirs []string) (*loaded, error) {
 	t0 := time.Now()
-	ovFiles, err := overlayFiles(pkgDirs)
-	if err != nil {
-		return nil, err
-	}
-	overlay := map[string][]byte{}
-	for virt, real := range ovFiles {
-		b, err := os.ReadFile(real)
+	var pkgs []*packages.Package
+	for round := 0; ; round++ {
+		ovFiles, err := overlayFiles(pkgDirs)
 		if err != nil {
 			return nil, err
 		}
-		overlay[virt] = b
-	}
-	var pats []string
-	for _, d := range pkgDirs {
-		pats = append(pats, "./"+d)
-	}
-	if _, ok := ovFiles[filepath.Join(repoRoot, "internal/verifsql/sql.go")]; ok {
-		pats = append(pats, "./internal/verifsql")
-	}
-	env := os.Environ()
-	env = append(env, "GOFLAGS=-mod=mod", "GOPROXY=off", "GOTOOLCHAIN=auto")
-	cfg := &packages.Config{
-		Mode:       packages.LoadAllSyntax,
-		Dir:        repoRoot,
-		Overlay:    overlay,
-		BuildFlags: []string{"-tags=verif"},
-		Env:        env,
-	}
-	pkgs, err := packages.Load(cfg, pats...)
-	if err != nil {
-		return nil, err
-	}
-	var errs []string
-	packages.Visit(pkgs, nil, func(p *packages.Package) {
-		for _, e := range p.Errors {
-			errs = append(errs, e.Error())
+		overlay := map[string][]byte{}
+		for virt, real := range ovFiles {
+			b, err := os.ReadFile(real)
+			if err != nil {
+				return nil, err
+			}
+			overlay[virt] = b
 		}
-	})
-	if len(errs) > 0 {
+		var pats []string
+		for _, d := range pkgDirs {
+			pats = append(pats, "./"+d)
+		}
+		if _, ok := ovFiles[filepath.Join(repoRoot, "internal/verifsql/sql.go")]; ok {
+			pats = append(pats, "./internal/verifsql")
+		}
+		env := os.Environ()
+		env = append(env, "GOFLAGS=-mod=mod", "GOPROXY=off", "GOTOOLCHAIN=auto")
+		cfg := &packages.Config{
+			Mode:       packages.LoadAllSyntax,
+			Dir:        repoRoot,
+			Overlay:    overlay,
+			BuildFlags: []string{"-tags=verif"},
+			Env:        env,
+		}
+		pkgs, err = packages.Load(cfg, pats...)
+		if err != nil {
+			return nil, err
+		}
+		var errs []string
+		dropped := 0
+		packages.Visit(pkgs, nil, func(p *packages.Package) {
+			for _, e := range p.Errors {
+				errs = append(errs, e.Error())
+				file := e.Pos
+				if i := strings.Index(file, ".go:"); i > 0 {
+					file = file[:i+3]
+				}
+				if _, inOverlay := ovFiles[file]; inOverlay && isHarnessFile(file) {
+					if _, seen := skippedOverlay[file]; !seen {
+						skippedOverlay[file] = e.Error()
+						dropped++
+					}
+				}
+			}
+		})
+		if len(errs) == 0 {
+			break
+		}
+		if dropped > 0 && round < 8 {
+			continue // reload without the harness files that do not compile (others may depend on them: iterate)
+		}
 		if len(errs) > 8 {
 			errs = errs[:8]
 		}
